@@ -80,6 +80,10 @@ def check(ix, rep):
         SS.check_build(ix, rep, kf, opn, slot_prefix='dense-offline:')
         SS.check_output(ix, rep, kf, opn, slot_prefix='dense-offline:')
     rep.floor('abstract states of the sliding-window merge step', nst, 72)
+    # output compression never drops the first sample
+    allf = list(m.functions.values()) + [g for c in m.classes.values() for g in c.methods.values()]
+    nfs = densesum.check_first_sample(ix, rep, allf, 'dense-offline')
+    rep.floor('compressing output loops', nfs, 6)
     for which in ('since', 'until'):
         kf = m.functions.get(which + '_timed_operation')
         if kf is None:
